@@ -603,9 +603,11 @@ impl Transformer {
     ) -> Result<()> {
         let mut new_svg_attrs = AttrMap::new();
         let mut orig_svg_attrs = HashMap::new();
+        let mut orig_svg_classes = crate::types::ClassList::new();
         if let OutputEvent::Start(orig_svg) | OutputEvent::Empty(orig_svg) = first_svg {
             new_svg_attrs = orig_svg.attrs.clone();
             orig_svg_attrs = orig_svg.get_attrs();
+            orig_svg_classes = orig_svg.classes.clone();
         }
         if !orig_svg_attrs.contains_key("version") {
             new_svg_attrs.insert("version", "1.1");
@@ -665,21 +667,25 @@ impl Transformer {
             }
         }
 
-        OutputList::from(
-            [OutputEvent::Start(SvgElement::new(
-                "svg",
-                &new_svg_attrs.to_vec(),
-            ))]
-            .as_slice(),
-        )
-        .write_to(writer)
+        let mut root = SvgElement::new("svg", &new_svg_attrs.to_vec());
+        // the class list is held apart from the attributes: keep the author's classes
+        root.add_classes(&orig_svg_classes);
+        OutputList::from([OutputEvent::Start(root)].as_slice()).write_to(writer)
     }
 
-    fn write_auto_styles(&self, events: &mut OutputList, writer: &mut dyn Write) -> Result<()> {
+    fn write_auto_styles(
+        &self,
+        events: &mut OutputList,
+        root_classes: &[String],
+        writer: &mut dyn Write,
+    ) -> Result<()> {
         // Collect the set of elements and classes so relevant styles can be
         // automatically added.
         let mut element_set = HashSet::new();
         let mut class_set = HashSet::new();
+        // the root element is written separately, but its classes count as used
+        element_set.insert("svg".to_owned());
+        class_set.extend(root_classes.iter().cloned());
         for output_ev in events.iter() {
             match output_ev {
                 OutputEvent::Start(e) | OutputEvent::Empty(e) => {
@@ -759,9 +765,13 @@ impl Transformer {
         // An empty root (`<svg/>`) is written as start + end so that the generated
         // content can go inside it.
         let mut close_root = false;
+        let mut root_classes = Vec::new();
         if let (pre_svg, Some(first_svg), remain) = events.partition("svg") {
             pre_svg.write_to(writer)?;
             close_root = matches!(first_svg, OutputEvent::Empty(_));
+            if let OutputEvent::Start(el) | OutputEvent::Empty(el) = &first_svg {
+                root_classes = el.get_classes();
+            }
             self.write_root_svg(first_svg, bbox, writer)?;
             events = remain;
             has_svg_element = true;
@@ -786,7 +796,7 @@ impl Transformer {
         // Default behaviour: include auto defs/styles iff we have an SVG element,
         // i.e. this is a full SVG document rather than a fragment.
         if has_svg_element && self.context.config.add_auto_styles {
-            self.write_auto_styles(&mut events, writer)?;
+            self.write_auto_styles(&mut events, &root_classes, writer)?;
         }
 
         if close_root {
